@@ -528,3 +528,43 @@ package saml
 //@    forall(0, len(src), func(k int) bool { return valueFromSession(src[k].Value, session) })
 //@ loop 3 vars groupMemberAttributeValues []AttributeValue
 //@ invariant[C06] groups_only: forall(0, len(groupMemberAttributeValues), func(k int) bool { return valueFromSession(groupMemberAttributeValues[k].Value, session) })
+
+//@ contract (*IdpAuthnRequest).MakeResponse
+//@ requires[cfg] idp: req.IDP != nil && req.IDP.Certificate != nil
+//@ requires[cfg] a: req.Assertion != nil && req.SPSSODescriptor != nil && req.ACSEndpoint != nil
+//@ requires[cfg] chain: forall(0, len(req.IDP.Intermediates), func(k int) bool { return req.IDP.Intermediates[k] != nil })
+//@ requires[cfg] rand: xmlenc.RandReader != nil
+//@ requires[cfg] cipher: xmlenc.AES128CBC != nil && xmlenc.AES128CBC.KeySize() >= 0
+//@ ensures[C06,C09] set: err == nil ==> req.ResponseEl != nil && req.AssertionEl != nil
+//@ -- the Response is addressed to the selected endpoint, answers this request, is issued by this IdP now, with status Success
+//@ assert@call[C06] Element #1 (r *Response) response_fields:
+//@    r != nil && r.Destination == req.ACSEndpoint.Location && r.InResponseTo == req.Request.ID && ns(r.IssueInstant) == ns(req.Now) &&
+//@    r.Issuer != nil && r.Issuer.Value == req.IDP.MetadataURL.String() && r.Status.StatusCode.Value == StatusSuccess && r.Version == "2.0"
+//@ -- the response element that is signed already carries the (signed, possibly encrypted) assertion element
+//@ assert@call[C06] SignEnveloped #1 (ctx *dsig.SigningContext, el *etree.Element) uses response *Response signs_response: ElementOfResponse(response, el)
+//@ -- the emitted element is rebuilt from the response that now holds the signature, and carries the assertion element again
+//@ assert@store[C06] ResponseEl #1 (stored *etree.Element) uses response *Response emits_signed_response:
+//@    stored != nil && response.Signature != nil && ElementOfResponse(response, stored)
+//@ assert@call[C06,C08] AddChild #2 (parent *etree.Element, child etree.Token) carries_assertion_el: tokenIs(child, req.AssertionEl)
+//@ go func tokenIs(t etree.Token, el *etree.Element) bool { x, ok := t.(*etree.Element); return ok && x == el }
+
+//@ contract (*IdpAuthnRequest).PostBinding
+//@ requires[cfg] idp: req.IDP != nil && req.IDP.Certificate != nil
+//@ requires[cfg] a: req.Assertion != nil && req.SPSSODescriptor != nil && req.ACSEndpoint != nil && req.ServiceProviderMetadata != nil
+//@ requires[cfg] chain: forall(0, len(req.IDP.Intermediates), func(k int) bool { return req.IDP.Intermediates[k] != nil })
+//@ requires[cfg] rand: xmlenc.RandReader != nil
+//@ requires[cfg] cipher: xmlenc.AES128CBC != nil && xmlenc.AES128CBC.KeySize() >= 0
+//@ -- the form posts to the selected registered endpoint, only if that endpoint uses the POST binding, with the relay state unchanged
+//@ ensures[C06] form: err == nil ==> result.URL == req.ACSEndpoint.Location && req.ACSEndpoint.Binding == HTTPPostBinding && result.RelayState == req.RelayState
+
+//@ contract (*IdpAuthnRequest).WriteResponse
+//@ requires[cfg] idp: req.IDP != nil && req.IDP.Certificate != nil
+//@ requires[cfg] a: req.Assertion != nil && req.SPSSODescriptor != nil && req.ACSEndpoint != nil && req.ServiceProviderMetadata != nil
+//@ requires[cfg] chain: forall(0, len(req.IDP.Intermediates), func(k int) bool { return req.IDP.Intermediates[k] != nil })
+//@ requires[cfg] rand: xmlenc.RandReader != nil
+//@ requires[cfg] cipher: xmlenc.AES128CBC != nil && xmlenc.AES128CBC.KeySize() >= 0
+//@ requires[cfg] tmpl: defaultResponseFormTemplate != nil
+//@ -- C14: the form is rendered by html/template with the peer-controlled strings as data
+//@ assert@call[C14,C06] Execute #1 (t *template.Template, out io.Writer, data interface{}) html_template_with_form_data:
+//@    t != nil && (t == req.IDP.ResponseFormTemplate || (req.IDP.ResponseFormTemplate == nil && t == defaultResponseFormTemplate)) && isForm(data)
+//@ go func isForm(d interface{}) bool { _, ok := d.(IdpAuthnRequestForm); return ok }
